@@ -427,57 +427,27 @@ Qed.
 
 (* ====================== remove_cand on a single ballot ====================== *)
 
+(* after the repair of the Python code: never fails, returns the scrubbed ballot, flags ignored *)
 Theorem remove_ballot_eq : forall removed cf lz b,
-  remove_cand_ballot removed cf lz b =
-  if lz || pos_wt (scrub removed b) then inl (scrub removed b) else inr EIndex.
-Proof.
-  intros removed cf lz b. unfold Core.remove_cand_ballot. rewrite remove_cand_bs_unfold.
-  cbn [map]. rewrite kept_of_cons. cbn [kept_of].
-  assert (Hnil : kept_of lz (@nil ballot) = []) by (destruct lz; reflexivity).
-  rewrite Hnil, app_nil_r.
-  destruct (lz || pos_wt (scrub removed b)).
-  - destruct cf; [|reflexivity]. rewrite condense_single, scrub_ids. reflexivity.
-  - destruct cf; reflexivity.
-Qed.
+  remove_cand_ballot removed cf lz b = inl (scrub removed b).
+Proof. reflexivity. Qed.
 
-Theorem remove_ballot_index_error : forall removed cf lz b,
-  (remove_cand_ballot removed cf lz b = inr EIndex <->
-     lz = false /\ ~ 0 < wt (scrub removed b)) /\
-  (forall e, remove_cand_ballot removed cf lz b = inr e -> e = EIndex) /\
-  (forall b', remove_cand_ballot removed cf lz b = inl b' -> b' = scrub removed b).
+Theorem remove_ballot_spec : forall removed cf lz b,
+  exists b', remove_cand_ballot removed cf lz b = inl b' /\
+    b' = scrub removed b /\
+    (forall c, In c removed -> ~ In c (flat (rk b'))) /\
+    rk b' = strip removed (rk b) /\
+    sc b' = strip_scores removed (sc b) /\
+    wt b' = (if nonempty (strip removed (rk b)) || nonempty (strip_scores removed (sc b))
+             then wt b else 0) /\
+    (strip removed (rk b) = [] -> strip_scores removed (sc b) = [] ->
+       b' = mkBallot [] 0 [] None None).
 Proof.
-  intros removed cf lz b. rewrite remove_ballot_eq.
-  destruct lz; cbn [orb].
-  - split; [|split].
-    + split; [discriminate|]. intros [H _]. discriminate.
-    + intros e H. discriminate.
-    + intros b' H. injection H as <-. reflexivity.
-  - destruct (pos_wt (scrub removed b)) eqn:E.
-    + apply pos_wt_iff in E. split; [|split].
-      * split; [discriminate|]. intros [_ H]. contradiction.
-      * intros e H. discriminate.
-      * intros b' H. injection H as <-. reflexivity.
-    + split; [|split].
-      * split; [|reflexivity]. intros _. split; [reflexivity|].
-        intros H. apply pos_wt_iff in H. congruence.
-      * intros e H. injection H as <-. reflexivity.
-      * intros b' H. discriminate.
-Qed.
-
-(* the documented defect: a positive-weight single ballot that loses everything raises IndexError *)
-Theorem remove_ballot_exhausted : forall removed cf lz b, 0 < wt b ->
-  (remove_cand_ballot removed cf lz b = inr EIndex <->
-     lz = false /\ strip removed (rk b) = [] /\ strip_scores removed (sc b) = []).
-Proof.
-  intros removed cf lz b Hpos. rewrite remove_ballot_eq, scrub_pos.
-  rewrite (proj2 (pos_wt_iff b) Hpos). cbn [andb].
-  destruct lz; cbn [orb].
-  - split; [discriminate|]. intros [H _]. discriminate.
-  - destruct (strip removed (rk b)) as [|g r]; cbn [nonempty orb].
-    + destruct (strip_scores removed (sc b)) as [|q d]; cbn [nonempty].
-      * split; [intros _; repeat split|reflexivity].
-      * split; [discriminate|]. intros (_ & _ & H). discriminate.
-    + split; [discriminate|]. intros (_ & H & _). discriminate.
+  intros removed cf lz b. exists (scrub removed b).
+  destruct (scrub_spec removed b) as (Hr & Hs & Hw & Hb & Hv).
+  split; [reflexivity|]. split; [reflexivity|]. split; [|split; [exact Hr|split; [exact Hs|split; [exact Hw|]]]].
+  - intros c Hc Hin. rewrite Hr in Hin. apply (strip_no_removed _ _ _ Hin). exact Hc.
+  - intros E1 E2. unfold Core.scrub. rewrite E1, E2. reflexivity.
 Qed.
 
 (* ====================== add_missing_cands ====================== *)
